@@ -216,6 +216,18 @@ func hasExpr(e parsedExpect) bool {
 }
 
 // canonSets rewrites every "(set a b c)" of an s-expression text with its elements sorted.
+// canonContent canonicalises the sets inside a space-separated sequence of s-expressions.
+func canonContent(sx string) string {
+	c := canonSets(sx)
+	if strings.HasPrefix(c, "(top ") && strings.HasSuffix(c, ")") {
+		return c[5 : len(c)-1]
+	}
+	if c == "(top)" {
+		return ""
+	}
+	return sx
+}
+
 func canonSets(sx string) string {
 	e, err := parseSx("(top " + sx + ")")
 	if err != nil {
@@ -236,6 +248,14 @@ func canonSets(sx string) string {
 					items[j], items[j-1] = items[j-1], items[j]
 				}
 			}
+			// a set holds each element once
+			out := n.List[:1]
+			for i, it := range items {
+				if i == 0 || it.String() != items[i-1].String() {
+					out = append(out, it)
+				}
+			}
+			n.List = out
 		}
 	}
 	walk(e)
